@@ -778,8 +778,8 @@ func c04DocValidDomain(d string) bool {
 	}
 	for _, l := range strings.Split(d, ".") {
 		a := l
-		if strings.HasPrefix(l, "xn--") {
-			if _, err := idna.Punycode.ToUnicode(l); err != nil {
+		if c04HasACE(l) { // in any letter case
+			if _, err := idna.Punycode.ToUnicode(c04AsciiLower(l)); err != nil {
 				return false
 			}
 		} else if x, err := idna.Punycode.ToASCII(l); err == nil {
